@@ -1163,7 +1163,23 @@ func (e *Exec) chanClose(c *Chan) {
 func (e *Exec) selectOp(fr *frame, instr *ssa.Select) Value {
 	// pick the first ready case (deterministic); default if none; blocked otherwise
 	chosen := -1
+	// a ticker case fires or not by symbolic choice, whatever else is ready (Go picks among ready cases at random)
 	for i, st := range instr.States {
+		if c, ok := fr.get(st.Chan).(*Chan); ok && c != nil && c.ticker && c.ticks > 0 && st.Dir == types.RecvOnly {
+			if e.branch(Sc{T: e.freshVar("tick", 0)}) {
+				old := c.ticks
+				e.journalUndo(func() { c.ticks = old })
+				c.ticks--
+				chosen = i
+				break
+			}
+		}
+	}
+	tickerChosen := chosen
+	for i, st := range instr.States {
+		if chosen >= 0 {
+			break
+		}
 		c := fr.get(st.Chan).(*Chan)
 		if c == nil {
 			continue
@@ -1187,7 +1203,10 @@ func (e *Exec) selectOp(fr *frame, instr *ssa.Select) Value {
 	for i, st := range instr.States {
 		if st.Dir == types.RecvOnly {
 			elem := st.Chan.Type().Underlying().(*types.Chan).Elem()
-			if i == chosen {
+			if i == chosen && i == tickerChosen {
+				r[1] = mkBool(true)
+				r = append(r, zero(elem))
+			} else if i == chosen {
 				v, ok := e.chanRecv(fr.get(st.Chan).(*Chan), elem)
 				r[1] = mkBool(ok)
 				r = append(r, v)
